@@ -142,6 +142,10 @@ class MinPathCover(pathmodel.AbstractPathModelDAG):
         
         self.additional_starts = additional_starts
         self.additional_ends = additional_ends
+        # The caller's own arguments, forwarded unchanged to the k-path-cover models in solve()
+        self.G_original = G
+        self.subpath_constraints_original = subpath_constraints
+        self.elements_to_ignore = elements_to_ignore
 
         self._solution = None
         self._lowerbound_k = None
@@ -168,13 +172,14 @@ class MinPathCover(pathmodel.AbstractPathModelDAG):
                 i_solver_options["time_limit"] = self.time_limit - self.solve_time_elapsed
 
             model = kpathcover.kPathCover(
-                        G=self.G,
+                        G=self.G_original,
                         k=i,
-                        subpath_constraints=self.subpath_constraints,
+                        cover_type=self.cover_type,
+                        subpath_constraints=self.subpath_constraints_original,
                         subpath_constraints_coverage=self.subpath_constraints_coverage,
                         subpath_constraints_coverage_length=self.subpath_constraints_coverage_length,
                         length_attr=self.length_attr,
-                        elements_to_ignore=self.edges_to_ignore,
+                        elements_to_ignore=self.elements_to_ignore,
                         additional_starts=self.additional_starts,
                         additional_ends=self.additional_ends,
                         optimization_options=self.optimization_options,
